@@ -60,11 +60,20 @@ ElsToks(ts, els, i) ==
     IF i > Len(els) THEN <<>>
     ELSE (IF i > 1 THEN <<",">> ELSE <<>>) \o ValToks(ts, els[i]) \o ElsToks(ts, els, i + 1)
 
-RECURSIVE DescToks(_, _, _)
-DescToks(ts, ids, i) ==     \* one DESCRIPTION line per source line; a long line is re-flowed into two
-    IF i > Len(ids) THEN <<>>
-    ELSE (IF ts[ids[i]] = "DESCRIPTION_LONG" THEN <<"DESCRIPTION", "EOL", "DESCRIPTION", "EOL">> ELSE <<>>)
-         \o DescToks(ts, ids, i + 1)
+\* reformatDescription on line classes (W: a line with words, E: an empty "|" line): consecutive W lines are re-flowed
+\* into one running paragraph, an E line after some text ends the paragraph and is kept once, leading E lines carry
+\* nothing and disappear, and a description without any output line is written as a single "|".
+RECURSIVE Reflow(_, _, _, _, _, _)
+Reflow(ts, ids, i, pend, lastEmpty, any) ==     \* any: something has been written or is pending
+    IF i > Len(ids) THEN (IF pend THEN <<"DESCRIPTION", "EOL">> ELSE <<>>)
+    ELSE IF ts[ids[i]] = "DESCRIPTION_EMPTY"
+         THEN IF ~any THEN Reflow(ts, ids, i + 1, FALSE, FALSE, FALSE)       \* leading empty lines carry nothing
+              ELSE (IF pend THEN <<"DESCRIPTION", "EOL">> ELSE <<>>)
+                   \o (IF ~lastEmpty THEN <<"DESCRIPTION_EMPTY", "EOL">> ELSE <<>>)
+                   \o Reflow(ts, ids, i + 1, FALSE, TRUE, TRUE)
+         ELSE Reflow(ts, ids, i + 1, TRUE, FALSE, TRUE)
+DescToks(ts, ids) ==
+    LET r == Reflow(ts, ids, 1, FALSE, FALSE, FALSE) IN IF r = <<>> THEN <<"DESCRIPTION_EMPTY", "EOL">> ELSE r
 
 \* the line(s) the formatter writes for one fragment, as tokens, ending in EOL
 FragToks(ts, f) ==
@@ -76,12 +85,7 @@ FragToks(ts, f) ==
       [] f.k = "assign" ->
             RefToks(ts, f.ref) \o (IF f.app THEN <<"+">> ELSE <<>>) \o <<"=">> \o ValToks(ts, f.val)
             \o (IF f.cmt # 0 THEN <<"COMMENT">> ELSE <<>>) \o <<"EOL">>
-      [] f.k = "desc" ->
-            \* consecutive one-word lines are joined into one line by reformatDescription
-            IF \E i \in 1..Len(f.ts) : ts[f.ts[i]] = "DESCRIPTION_LONG"
-            THEN DescToks(ts, f.ts, 1)
-                 \o (IF \E i \in 1..Len(f.ts) : ts[f.ts[i]] # "DESCRIPTION_LONG" THEN <<"DESCRIPTION", "EOL">> ELSE <<>>)
-            ELSE <<"DESCRIPTION", "EOL">>
+      [] f.k = "desc" -> DescToks(ts, f.ts)
       [] f.k = "comment" -> <<Relex(ts[f.i]), "EOL">>
       [] OTHER -> <<"}", "EOL">>
 
